@@ -24,7 +24,8 @@ CFG = dict(
           dict(test="TestC20E2E", timeout_quick=300, timeout_thorough=1200),
           dict(test="TestC20ServerDone", timeout_quick=300, timeout_thorough=1200),
           dict(test="TestC20WorkersBusy", timeout_quick=300, timeout_thorough=1200),
-          dict(test="TestC20SendHeaderWriteFails", timeout_quick=300, timeout_thorough=300)],
+          dict(test="TestC20SendHeaderWriteFails", timeout_quick=300, timeout_thorough=300),
+          dict(test="TestC20ClientRaces", timeout_quick=300, timeout_thorough=300)],
     reason_text={"1": "implementation output differs from the Gallina model of the code (Model/Chain.v get_chain / chain; Model/Stats.v)",
                  "2": "implementation violates the specification: the observed calls are not the nesting in registration order (Check/C20c.v run_nest)",
                  "3": "a stage or the handler did not run exactly once, in order (Check/C20c.v spec_once)",
